@@ -49,9 +49,14 @@ def ReadLinesByKey(callback: Callable[[_T, str], Any]) -> Callable[[_T, str], An
 
     def read_lines_by_key(key: _T, s: str) -> None:
         buffer[key] += s
-        if s.endswith('\n'):
-            line = buffer.pop(key)
-            callback(key, line)
+        if '\n' not in s:
+            return
+        # Report up to the last newline. Keep the rest, e.g., 'e' of 'd\ne'.
+        text = buffer.pop(key)
+        end = text.rindex('\n') + 1
+        if rest := text[end:]:
+            buffer[key] = rest
+        callback(key, text[:end])
 
     return read_lines_by_key
 
